@@ -34,6 +34,7 @@ func init() {
 	share("C05", canon)
 	share("C17", canon)
 	share("C06", &RuleDoc{Name: "R-SYNC-ANCHOR-ONCE", Text: "The RTP/NTP anchor of a depacketiser's clock is set from a sender report only while it is unset (RTPTime == 0): presentation-time differences stay equal to RTP-timestamp differences across later sender reports.", Run: ruleSyncAnchorOnce})
+	share("C06", &RuleDoc{Name: "R-RTP-TIME-MODULAR", Text: "The sync clock never subtracts two raw 32-bit RTP timestamps after widening both to 64 bits (a plain difference jumps by 2^32 ticks, about 13 h at 90 kHz, when the timestamp wraps): the difference is taken modulo 2^32 or on a wrap-extended value.", Run: ruleRtpTimeModular})
 	share("C06", &RuleDoc{Name: "R-AU-HEADER-BITS", Text: "In the AAC-hbr depacketiser the AU size is the AU header shifted right by indexLength with no mask narrower than sizeLength (13) bits, and the constructor's sizeLength + indexLength = 16.", Run: ruleAuHeaderBits})
 	share("C07", &RuleDoc{Name: "R-META-PARAMS-FIRST-ONLY", Text: "The depacketisers (H.264, H.265; sibling rule) store an in-band VPS/SPS/PPS into the metadata shared with the remuxers only while that parameter set is still empty: a later truncated parameter set cannot replace the good one the remuxers build their sequence headers from.", Run: ruleMetaParamsFirstOnly})
 	share("C09", &RuleDoc{Name: "R-STUFF-ONLY-WHEN-SHORT", Text: "fillStuff is called only where the remaining data is strictly shorter than the packet body (bodySize > inSize established): an exact fit must not claim an adaptation field that is not there.", Run: ruleStuffOnlyWhenShort})
@@ -65,6 +66,8 @@ func init() {
 			Old: "\tnp := path.Clean(p)", New: "\tif !strings.Contains(p, \"..\") {\n\t\treturn p\n\t}\n\tnp := path.Clean(p)", Expect: "R-CANONICAL-CLEANS"},
 		&Mutant{Prop: "C17", Name: "c17-canonical-drops-slash", File: "utils/path.go",
 			Old: "\t\t} else {\n\t\t\tnp += \"/\"\n\t\t}", New: "\t\t}", Expect: "R-CANONICAL-CLEANS"},
+		&Mutant{Prop: "C06", Name: "c06-plain-timestamp-difference", File: "av/format/rtp/syncclock.go",
+			Old: "func (sc *SyncClock) RelativeNtp(rtptime uint32) int64 {\n\tdiff := sc.extend(rtptime) - sc.anchor()", New: "func (sc *SyncClock) RelativeNtp(rtptime uint32) int64 {\n\tdiff := int64(rtptime) - int64(sc.RTPTime)", Expect: "R-RTP-TIME-MODULAR"},
 		&Mutant{Prop: "C06", Name: "c06-reanchor-every-sr", File: "av/format/rtp/demuxer.go",
 			Old: "\tif dp.syncClock.RTPTime == 0 {\n\t\tif ok := dp.syncClock.Decode(p.Data); ok {\n\n\t\t}\n\t}", New: "\tdp.syncClock.Decode(p.Data)", Expect: "R-SYNC-ANCHOR-ONCE"},
 		&Mutant{Prop: "C06", Name: "c06-au-size-12-bits", File: "av/format/rtp/aac_depacketizer.go",
@@ -1049,4 +1052,59 @@ func ruleSegmentFileTrunc(c *Ctx) {
 		})
 	}
 	c.Floor("segment files opened for writing", n, 1)
+}
+
+// ------------------------------------------------------------ R-RTP-TIME-MODULAR
+
+func ruleRtpTimeModular(c *Ctx) {
+	p := c.P
+	n := 0
+	for _, fn := range p.FuncsInPkg("av/format/rtp") {
+		if fn.Signature.Recv() == nil || !typeIs(fn.Signature.Recv().Type(), modRel("av/format/rtp"), "SyncClock") {
+			continue
+		}
+		ord := 0
+		instrs(fn, func(ins ssa.Instruction) {
+			sub, ok := ins.(*ssa.BinOp)
+			if !ok || sub.Op != token.SUB {
+				return
+			}
+			is32 := func(v ssa.Value) (ssa.Value, bool) {
+				cv, ok := v.(*ssa.Convert)
+				if !ok {
+					return nil, false
+				}
+				b, ok := cv.X.Type().Underlying().(*types.Basic)
+				if !ok || b.Kind() != types.Uint32 {
+					return nil, false
+				}
+				return cv.X, true
+			}
+			x, okx := is32(sub.X)
+			y, oky := is32(sub.Y)
+			if !okx || !oky {
+				return
+			}
+			// both operands are raw RTP timestamps (parameter / RTPTime field)
+			isTs := func(v ssa.Value) bool {
+				if _, isParam := origin(v).(*ssa.Parameter); isParam {
+					return true
+				}
+				if f, _, ok := fieldLoad(v); ok && strings.Contains(f.Name(), "RTP") {
+					return true
+				}
+				return false
+			}
+			if !isTs(x) || !isTs(y) {
+				return
+			}
+			ord++
+			n++
+			c.touched(fname(fn))
+			c.Bad(fmt.Sprintf("rtp-diff#%d@%s", ord, fname(fn)), p.InstrPos(sub), "two raw 32-bit RTP timestamps are widened to 64 bits and then subtracted: when the sender's timestamp wraps (random start value, 2^32 ticks = 13.25 h at 90 kHz) the difference drops by 2^32 ticks and the presentation time of every later frame jumps back by that much - presentation-time differences no longer equal RTP-timestamp differences")
+		})
+	}
+	if n == 0 {
+		c.OK("rtp-diff", "", "no widened raw-timestamp difference in the sync clock (differences are modular or wrap-extended)")
+	}
 }
